@@ -19,7 +19,7 @@ TECHNIQUE = "differential bounded symbolic execution (symx + z3) of the real inv
 LEVEL_TEXT = ("For every inventory file within the bounds (header with symbolic project/version, body lines with symbolic characters over an ASCII alphabet that contains the "
               "field separators, ':' '$' '-' and digits) and every schedule of read() chunk boundaries up to the stated number of cuts, z3 shows on every path that MyST's loader "
               "yields the same (domain, type, name) -> (location, display name) table as Sphinx's loader executed on the same symbolic bytes, whenever Sphinx accepts the file; "
-              "that the result is the same for every read schedule; and that from_sphinx(to_sphinx(inv)) == inv up to base_url.")
+              "that the result is the same for every read schedule (v2 and v1, up to 2-3 boundaries, inside UTF-8 sequences); and that from_sphinx(to_sphinx(inv)) == inv up to base_url.")
 LEVEL_NOTE = ("Trusted: symx (string, bytes and regex models; validated each run against CPython on the repo's test inventories and random lines), z3, Sphinx 8.2.3's loader as reference. "
               "Stubs: zlib is the identity codec in both loaders (assumed contract: streaming decompression is chunk-concatenative), Sphinx's logger is a no-op, posixpath.join('', loc) = loc.")
 BUDGET_S = {"quick": 150, "thorough": 1200}
